@@ -303,3 +303,63 @@ func (u *Unit) freshSig(st *State, t types.Type, n int64) SliceV {
 	r.C = u.newArr("sig")
 	return SliceV{Blk: r.Blk, Off: IntLit(0), Len: IntLit(n), Cap: IntLit(n), Elem: types.Typ[types.Uint8]}
 }
+
+// Hashes: SHA-256 is an uninterpreted function of the message bytes.  Each
+// call is logged (message, digest); the specification predicate
+// ishash(h, data) holds, as a goal, iff some logged call hashed bytes equal
+// to data and produced h.  Equal messages have equal digests (asserted
+// between log entries through named sequence equalities).
+type hashEntry struct {
+	data  seqRef
+	res   ArrV
+	scope int
+}
+
+func (u *Unit) hashModel(st *State, args []Val, rt types.Type) (Val, bool) {
+	if len(args) != 1 {
+		return nil, false
+	}
+	if _, ok := args[0].(SliceV); !ok {
+		return nil, false
+	}
+	data := u.seqRefOf(st, args[0])
+	res := ArrV{Arr: u.newArr("sha256"), N: 32}
+	live := u.hashLog[:0]
+	for _, e := range u.hashLog {
+		if u.S.Alive(e.scope) {
+			live = append(live, e)
+		}
+	}
+	u.hashLog = live
+	for _, e := range live {
+		m := u.hypSeqEq(data, e.data)
+		if m.IsBool && !m.B {
+			continue
+		}
+		u.assume(Implies(m, u.seqEqTerm(res.Arr, IntLit(0), IntLit(32), e.res.Arr, IntLit(0), IntLit(32))))
+	}
+	u.hashLog = append(u.hashLog, &hashEntry{data: data, res: res, scope: u.S.ScopeID()})
+	u.Assumed["A-HASH: SHA-256 is an uninterpreted deterministic function of the message bytes; ishash is what the calls computed"]++
+	return res, true
+}
+
+func (u *Unit) isHash(st *State, h Val, data Val, goal bool) *Term {
+	ha, ho, hl := u.seqOf(st, h)
+	hs := seqRef{ha, ho, hl}
+	d := u.seqRefOf(st, data)
+	if !goal {
+		res := ArrV{Arr: u.newArr("sha256"), N: 32}
+		u.hashLog = append(u.hashLog, &hashEntry{data: d, res: res, scope: u.S.ScopeID()})
+		return u.hypSeqEq(hs, seqRef{res.Arr, IntLit(0), IntLit(32)})
+	}
+	var alts []*Term
+	for _, e := range u.hashLog {
+		if u.S.Alive(e.scope) {
+			alts = append(alts, And(u.goalSeqEq(d, e.data), u.goalSeqEq(hs, seqRef{e.res.Arr, IntLit(0), IntLit(32)})))
+		}
+	}
+	if len(alts) == 0 {
+		return u.newBool("ishash_unknown")
+	}
+	return Or(alts...)
+}
